@@ -16,6 +16,9 @@ def parseWOp (op : String) : Option SW.WOp :=
   | ["W", tok, decl, len, ulen, infoLen] =>
     some (.write { tok := parseNat tok, decl := parseDecl decl, enc := fun _ => List.replicate (parseNat len) 0,
                    ulen := fun _ => parseNat ulen, infoBytes := fun _ => List.replicate (parseNat infoLen) 0 })
+  | ["F", tok, decl, infoLen] =>
+    some (.failed { tok := parseNat tok, decl := parseDecl decl, enc := fun _ => [], ulen := fun _ => 0,
+                    infoBytes := fun _ => List.replicate (parseNat infoLen) 0 })
   | _ => none
 
 def showResp : Option WResp → String
